@@ -393,8 +393,31 @@ def section_kd(ctx, binp, runner, st):
             meta.append(cs)
             if not cs["deterministic"]:
                 ctx.violation({"section": "kd", "seed": ctx.seed, "case": cs}, "key derivation getter %s is not deterministic" % cs["kind"])
+            if cs.get("direct_agrees") is False:
+                ctx.violation({"section": "kd", "seed": ctx.seed, "case": cs},
+                              "%s disagrees with the direct wallet getter for the same (ip, identity, credential, tag) = %s" % (cs.get("via"), cs["a"]))
             if cs["public_matches"] is False:
                 ctx.violation({"section": "kd", "seed": ctx.seed, "case": cs}, "public key getter does not match secret key * base point (%s)" % cs["kind"])
+    # CredentialContext::get_cred_id_exponent: 1 / (prf_key(ip, id) + credential_index) along the model's PrfKey path
+    ctxc = [cs for cs in cases if cs["k"] == "kdctx"]
+    cpaths = run_model(runner, ["path %d prf %s %s" % (cs["net"], cs["a"][0], cs["a"][1]) for cs in ctxc])
+    good = [(cs, pth) for cs, pth in zip(ctxc, cpaths) if pth != "None"]
+    keys = run_harness_stdin(binp, "derive", ["%s bls %s" % (cs["seed"], pth) for cs, pth in good])
+    kmap = {id(cs): k.strip() for (cs, _), k in zip(good, keys)}
+    for cs, pth in zip(ctxc, cpaths):
+        st.seen.add(c.digest(cs))
+        if not cs["direct_agrees"]:
+            ctx.violation({"section": "kd", "seed": ctx.seed, "case": cs},
+                          "CredentialContext::get_cred_id_exponent disagrees with get_prf_key(ip, id).prf_exponent(credential) for %s" % cs["a"])
+        if pth == "None":
+            want = "Err"
+        else:
+            st.nontrivial.add(c.digest(cs))
+            k = (int(kmap[id(cs)], 16) + int(cs["a"][2], 16)) % BLS_R
+            want = "NoExp" if k == 0 else "%064x" % pow(k, -1, BLS_R)
+        if cs["got"] != want:
+            ctx.violation({"section": "kd", "seed": ctx.seed, "case": cs, "model_prf_path": pth, "expected": want},
+                          "CredentialContext::get_cred_id_exponent%s is not 1/(prf key along the model path + credential index)" % cs["a"])
     outs = run_model(runner, lines)
     derive_lines = []
     derive_meta = []
